@@ -138,8 +138,8 @@ TEXT = {
 
 # Additions made while working through independently seeded changes (appended to level_text).
 ADDENDA = {
-    "C01": " Added: profiles rotlag / rules / laggard variants, validate-then-queue deliveries (host queue model), coalition replaying stale evidence and sending supplemental-data variants, DECIDE-level greedy decider (every decidable value is turned into a real decision of some undecided participant), forged DECIDE floods with repetition.",
-    "C02": " Added: rotating-laggard profile with a coalition that keeps pushing one foreign chain with genuine COMMIT-bottom evidence; an honest participant with a diverged base view (same key and epoch, other power-table CID) in 12% of worlds; validate-then-queue deliveries; inputs of 125-137 tipsets (around and beyond the maximum chain length) in 1 of 40 quick worlds.",
+    "C01": " Added: profiles rotlag / rules / laggard variants, validate-then-queue deliveries (host queue model), coalition replaying stale evidence and sending supplemental-data variants, DECIDE-level greedy decider (every decidable value is turned into a real decision of some undecided participant), forged DECIDE floods with repetition; a third of the worlds deliver every message through the production two-stage path (strip, partial validation, completion, full validation); coalition action transplanting a genuine quorum onto a vote for a foreign chain.",
+    "C02": " Added: rotating-laggard profile with a coalition that keeps pushing one foreign chain with genuine COMMIT-bottom evidence; an honest participant with a diverged base view (same key and epoch, other power-table CID) in 12% of worlds; validate-then-queue deliveries; inputs of 125-137 tipsets (around and beyond the maximum chain length) in 1 of 40 quick worlds; a third of the worlds deliver every message through the two-stage validation path, with a coalition that reuses a genuine PREPARE quorum as the justification of a COMMIT for a foreign chain.",
     "C03": " Added: solo engine (one real participant under a non-equivocating puppet committee, decisions checked as proofs); supplemental-data variants of coalition votes; cluster engine: 1-3 real F3 nodes end to end, the certificates stored by the host's own decision path (committees, delta, self-validation, Put) are validated with the reference and the production validator and compared across nodes; a node that terminated an instance must hold its certificate; an honest participant whose base or supplemental data diverges from the network's (it must refuse everything it hears; whatever it reports is judged against its own view).",
     "C06": " Added: up to 3 instances, coalition action poison-next-instance (queued round-0 vote that fails late-binding validation), stall detector in the closing phase (decided participants have nothing in flight and for longer than any phase timeout of the rounds reached nothing changed); inputs around and beyond the maximum chain length.",
     "C07": " Added: solo engine (single votes, quorum bursts, advance, lure actions; skips in 44% and sways in 21% of cases, all non-defensive branches of the state machine covered), scripted regression scenarios for the two gpbft fixes, diverged-base participant, validate-then-queue deliveries.",
@@ -147,10 +147,11 @@ ADDENDA = {
     "C09": " Added: long histories through the public API (1026-1700 certificates in quick, to 4500 in thorough): power tables at offsets 1022-1027 and 1438/1439 past every stored table, ranges of length 1023-1441 and ranges running past the end, both reopen variants; 2-4 concurrent writers racing different certificates for the same next instance (what is served once never changes, no certificate key rewritten).",
     "C10": " Added: CreateStore as a third way of reopening the surviving map (refused while a store exists; otherwise a fresh store that keeps a certificate across the next restart).",
     "C11": " Added: the model learns which file received an entry from the directory (no mirror of the rotation rule); histories continue from a tail torn strictly inside a record (appends, rotations, purges and restarts behind it); appends whose encoder fails after a generated number of bytes (refused, must leave no trace).",
-    "C12": " Added: node action torn-crash-restart (a strict prefix of a record left at the end of the newest WAL file before an abrupt restart); after a restart half of the requests conflict with an earlier request of the same slot; rounds {0,1,5,6,7,13}; node action big-burst (14 identities vote for a maximum-size chain: one WAL file grows past 1 MiB and rolls over).",
+    "C12": " Added: node action torn-crash-restart (a strict prefix of a record left at the end of the newest WAL file before an abrupt restart); after a restart half of the requests conflict with an earlier request of the same slot; rounds {0,1,5,6,7,13}; node action big-burst (14 identities vote for a maximum-size chain: one WAL file grows past 1 MiB and rolls over); rebroadcast requests aimed at the slots of earlier requests.",
     "C14": " Added: overlimit operator (an independent CBOR walker locates every array/map/string header of a valid encoding; one is replaced by a header announcing 2^31..2^64-1: decoding must fail); JSON round trips of tipsets, chains, supplemental data, payloads and certificates; boundary-size chains (100-128 tipsets with 760-byte keys); decoding into a value that already held another chain whose key had been read (raw and through the encoding package): every derived datum must be that of the decoded chain.",
     "C15": " Added: metamorphic deep-reorg variant (the EC view forks off before the bootstrap tipset while certificates are stored); cluster engine: certificates stored by real nodes must start at the previous head, run along EC parent links with EC's table CIDs, carry the delta between the node-rule committees and commit to the next one; the EC backend serves power tables in any member order; the inputs object is reused across instances and asked again after the EC head moved.",
     "C16": " Added: stores with an orphan certificate above the latest pointer; certificates put into the poller's own store before a poll; the client against a scripted responder (shifted, repeated, skipped, over-limit runs, garbage tail): only the in-sequence prefix within the limit is delivered; tables of 100-8192 members with deltas of up to 3000 entries through the real server and client.",
+    "C17": " Added: tables of 50-8192 members with deltas of up to 5000 entries; corruptions that keep the block count (a block overwritten by a copy of another, a repeated certificate paying for a dropped one, a dropped one paid for by a surplus one at the end).",
     "C18": " Added: re-broadcasts of known chains and chains sharing a proper prefix; timestamps far outside the window across the whole int64 range; caches of 128-160 entries per instance with chains of 100-128 tipsets (1 case in 40).",
     "C19": " Added: invalid decisions reported for a past instance; decisions whose header claims another phase/round than the quorum signed; CertChain.Validate must accept chains built under the node's committee rule and reject a certificate signed by another instance's committee.",
     "C20": " Added: slow-peer rounds (mock time passes while a request is held, sometimes past the interval): interval <= poll-to-poll <= max(interval, request) + min(request, interval/2); certificates stored locally while a request is in flight, judged against every admissible attribution of that progress to rounds.",
